@@ -81,5 +81,5 @@ def check(case):
 
 ARMS = [
     HypArm("orders", _strategy, check, signature=positional_signature,
-           budget={"quick": 500, "thorough": 15000}),
+           budget={"quick": 320, "thorough": 15000}),
 ]
